@@ -54,6 +54,7 @@ type Op struct {
 	At      int    `json:",omitempty"`
 	Route   []int  `json:",omitempty"` // restart (C15): the served-bucket set of the next process generation (route change); nil = unchanged
 	Traffic []Op   `json:",omitempty"` // gc (C07): client writes placed inside the pass through a second connection
+	CancelAt int   `json:",omitempty"` // gc (C03): a cancel request is placed right before the n-th relocation write of the pass
 	CloseAt int    `json:",omitempty"` // gc (C07): a clean shutdown is started at the n-th disk mutation of the pass; the process exits when it returns
 }
 
